@@ -43,6 +43,32 @@ theorem parFor_perm_schedule {β} (f : Nat → β) (sched : List Nat) (init : Li
 
 example : [2, 0, 3, 1] ~ List.range ([7, 7, 7, 7] : List Nat).length := by decide
 
+/-- **Interleavings below the task level.**  Split every task into its two events — compute the
+value from the immutable inputs into a private slot, then write the slot to the task's own cell —
+and let the pool interleave the events of different tasks in any way whatever: as long as every
+task `i < n` has a compute event somewhere before a write event (program order inside the task),
+the output is again `[f 0, …, f (n-1)]`.  Extra events (re-computations, re-writes, writes of
+tasks that never computed) do not matter. -/
+theorem parForEvents_interleaving_independent {β} (f : Nat → β) (evs : List Event) (init : List β)
+    (hall : ∀ i, i < init.length → ∃ p1 p2 post,
+      evs = p1 ++ Event.compute i :: p2 ++ Event.write i :: post) :
+    parForEvents f evs init = (List.range init.length).map f := by
+  have hlen : (parForEvents f evs init).length = init.length :=
+    (evGood_foldl f init.length evs _ (evGood_init f init)).2.1
+  apply List.ext_getElem?
+  intro i
+  by_cases hi : i < init.length
+  · obtain ⟨p1, p2, post, rfl⟩ := hall i hi
+    unfold parForEvents
+    rw [events_cell f init.length _ (evGood_init f init) i hi p1 p2 post]
+    simp [hi]
+  · rw [List.getElem?_eq_none (by omega), List.getElem?_eq_none (by simp; omega)]
+
+/-- two tasks, events fully interleaved: c1 c0 w1 c1 w0 -/
+example : parForEvents (fun i => 10 * i + 1)
+    [Event.compute 1, Event.compute 0, Event.write 1, Event.compute 1, Event.write 0] [7, 7] = [1, 11] := by
+  decide
+
 section KMeans
 variable {α : Type} [Add α] [Sub α] [Mul α] [LT α] [DecidableLT α] [OfNat α 0]
 
